@@ -634,7 +634,12 @@ impl fmt::Display for XmlAttribute {
             value.push_str(&format!("{}", v));
         }
 
-        write!(f, "{}={}", self.local_name.as_str(), escape(value.as_str()))
+        write!(
+            f,
+            "{}={}",
+            self.local_name.as_str(),
+            escape_att_value(value.as_str())
+        )
     }
 }
 
@@ -940,18 +945,19 @@ impl XmlCData {
         XmlCData::node("", None, context)
     }
 
-    pub fn delete(&mut self, offset: usize, count: usize) {
-        self.data = delete_char_range(self.data.as_str(), offset, count);
+    fn check(value: &str) -> error::Result<bool> {
+        let new = format!("<![CDATA[{}]]>", value);
+        let (rest, _) = xml_parser::cdsect(new.as_str())?;
+        Ok(rest.is_empty())
+    }
+
+    pub fn delete(&mut self, offset: usize, count: usize) -> error::Result<()> {
+        self.data = delete_char_range(self.data.as_str(), offset, count, Self::check)?;
+        Ok(())
     }
 
     pub fn insert(&mut self, offset: usize, data: &str) -> error::Result<()> {
-        fn check(value: &str) -> error::Result<bool> {
-            let new = format!("<![CDATA[{}]]>", value);
-            let (rest, _) = xml_parser::cdsect(new.as_str())?;
-            Ok(rest.is_empty())
-        }
-
-        self.data = insert_char_at(self.data.as_str(), offset, data, check)?;
+        self.data = insert_char_at(self.data.as_str(), offset, data, Self::check)?;
         Ok(())
     }
 
@@ -1169,18 +1175,19 @@ impl XmlComment {
         XmlComment::node("", None, context)
     }
 
-    pub fn delete(&mut self, offset: usize, count: usize) {
-        self.comment = delete_char_range(self.comment.as_str(), offset, count);
+    fn check(value: &str) -> error::Result<bool> {
+        let new = format!("<!--{}-->", value);
+        let (rest, _) = xml_parser::comment(new.as_str())?;
+        Ok(rest.is_empty())
+    }
+
+    pub fn delete(&mut self, offset: usize, count: usize) -> error::Result<()> {
+        self.comment = delete_char_range(self.comment.as_str(), offset, count, Self::check)?;
+        Ok(())
     }
 
     pub fn insert(&mut self, offset: usize, comment: &str) -> error::Result<()> {
-        fn check(value: &str) -> error::Result<bool> {
-            let new = format!("<!--{}-->", value);
-            let (rest, _) = xml_parser::comment(new.as_str())?;
-            Ok(rest.is_empty())
-        }
-
-        self.comment = insert_char_at(self.comment.as_str(), offset, comment, check)?;
+        self.comment = insert_char_at(self.comment.as_str(), offset, comment, Self::check)?;
         Ok(())
     }
 
@@ -3545,17 +3552,18 @@ impl XmlText {
         XmlText::node("", None, context)
     }
 
-    pub fn delete(&mut self, offset: usize, count: usize) {
-        self.text = delete_char_range(self.text.as_str(), offset, count);
+    fn check(value: &str) -> error::Result<bool> {
+        let (rest, content) = xml_parser::content(value)?;
+        Ok(rest.is_empty() && content.children.is_empty())
+    }
+
+    pub fn delete(&mut self, offset: usize, count: usize) -> error::Result<()> {
+        self.text = delete_char_range(self.text.as_str(), offset, count, Self::check)?;
+        Ok(())
     }
 
     pub fn insert(&mut self, offset: usize, text: &str) -> error::Result<()> {
-        fn check(value: &str) -> error::Result<bool> {
-            let (rest, content) = xml_parser::content(value)?;
-            Ok(rest.is_empty() && content.children.is_empty())
-        }
-
-        self.text = insert_char_at(self.text.as_str(), offset, text, check)?;
+        self.text = insert_char_at(self.text.as_str(), offset, text, Self::check)?;
         Ok(())
     }
 
@@ -4368,7 +4376,12 @@ fn char_from_char16(value: &str) -> error::Result<char> {
         .ok_or(error::Error::NotFoundReference(format!("#x{}", value)))
 }
 
-fn delete_char_range(value: &str, offset: usize, count: usize) -> String {
+/// Deletes a range of characters; the remaining data as a whole must pass `check`
+/// (deleting can join what was separate: the two dashes of `a-x-`, `]]` and `>`).
+fn delete_char_range<F>(value: &str, offset: usize, count: usize, check: F) -> error::Result<String>
+where
+    F: Fn(&str) -> error::Result<bool>,
+{
     let mut chars = value.chars().collect::<Vec<char>>();
 
     let s = if offset < chars.len() {
@@ -4385,7 +4398,12 @@ fn delete_char_range(value: &str, offset: usize, count: usize) -> String {
 
     chars.drain(s..e);
 
-    chars.iter().collect()
+    let data: String = chars.iter().collect();
+    if check(data.as_str())? {
+        Ok(data)
+    } else {
+        Err(error::Error::InvalidData(data))
+    }
 }
 
 fn equal_qname(a: xml_nom::model::QName, b: xml_nom::model::QName) -> bool {
@@ -4400,6 +4418,16 @@ fn equal_qname(a: xml_nom::model::QName, b: xml_nom::model::QName) -> bool {
             xml_nom::model::QName::Prefixed(_) => false,
             xml_nom::model::QName::Unprefixed(b) => a == b,
         },
+    }
+}
+
+/// An attribute value as it is printed: when it holds both kinds of quotes none of them can
+/// delimit it, so the double quotes are written as references.
+fn escape_att_value(value: &str) -> String {
+    if value.contains('"') && value.contains('\'') {
+        format!("\"{}\"", value.replace('"', "&quot;"))
+    } else {
+        escape(value)
     }
 }
 
@@ -4430,14 +4458,17 @@ where
         chars.len()
     };
 
-    if check(new)? {
-        let mut tail = chars.split_off(index);
-        let mut middle = new.chars().collect::<Vec<char>>();
+    let mut tail = chars.split_off(index);
+    let mut middle = new.chars().collect::<Vec<char>>();
 
-        chars.append(&mut middle);
-        chars.append(&mut tail);
+    chars.append(&mut middle);
+    chars.append(&mut tail);
 
-        Ok(chars.iter().collect())
+    // the data as a whole is checked: the new piece can complete a sequence that the old data
+    // began (`]]` + `>`, `-` + `-`)
+    let data: String = chars.iter().collect();
+    if check(data.as_str())? {
+        Ok(data)
     } else {
         Err(error::Error::InvalidData(new.to_string()))
     }
